@@ -83,14 +83,19 @@ def make_new(r, df, used):
     ref = nd.copy()
     cands = [v for v in CAT_VARS if v in used]
     rows = {}
+    # now and then the unseen value is a FALSY one (the integer id 0, the empty string): a level like
+    # any other (eleventh seeded wave, C10_Q: "no unseen level" tested by truthiness); own stream,
+    # derived from the rows drawn so far, so that the other draws stay those of earlier runs
+    rf = rng_for(len(df), tuple(idx), "falsy-unseen")
     if cands and r.random() < 0.85:
         for v in r.sample(cands, r.randrange(1, min(3, len(cands)) + 1)):
+            falsy = rf.random() < 0.3
             for k in r.sample(range(len(nd)), r.randrange(1, max(2, len(nd) // 2))):
                 if v == "k":
-                    nd.loc[k, v] = 99
+                    nd.loc[k, v] = 0 if falsy else 99
                 else:
                     nd[v] = nd[v].astype(object)
-                    nd.loc[k, v] = "NEW_" + v
+                    nd.loc[k, v] = "" if falsy else "NEW_" + v
                 rows.setdefault(k, []).append(v)
     declared = {}
     r2 = rng_for(r.random(), "declared")       # one draw from the case's stream
